@@ -253,3 +253,35 @@ func witnessIRStrictWith(c *run.Ctx) func(w witness) string {
 		return ""
 	}
 }
+
+// witnessExecText compiles the witness with a text backend (first option set), runs the emitted text in the matching
+// interpreter on pattern buffers and checks static monitors, traps and the listed expectations.
+func witnessExecText(be textBackend) func(w witness) string {
+	return func(w witness) string {
+		mod, stage, err := lowerSrc(w.Src)
+		if err != nil {
+			return stage + ": " + err.Error()
+		}
+		rs := resOfModule(mod)
+		tr := be.run(mod, mod.EntryPoints[0].Name, rs, [3]uint32{1, 1, 1}, false, 0, true)
+		switch {
+		case tr.err != nil:
+			return be.name + " backend: " + tr.err.Error()
+		case tr.parse != nil:
+			return "emitted " + be.name + " does not parse: " + tr.parse.Error()
+		case len(tr.static) > 0:
+			return "emitted " + be.name + ": " + tr.static[0].Error()
+		case tr.runErr != nil:
+			return be.name + " interpreter: " + tr.runErr.Error()
+		case len(tr.traps) > 0:
+			return "trap: " + tr.traps[0].Error()
+		}
+		bufs := xrt.Buffers{}
+		for i, r := range rs {
+			if b := tr.get(i); b != nil {
+				bufs[xrt.Slot{A: r.Group, B: r.Binding}] = b
+			}
+		}
+		return checkExpects(w, bufs)
+	}
+}
